@@ -201,6 +201,9 @@ def _snap(x):
     return x
 
 
+EXEC_STATS = {'clauses': 0, 'not_executable': set()}     # per process = per function (pyvc/runner.py)
+
+
 class ExecClause:
     """One contract clause compiled to a Python predicate over the real objects."""
 
@@ -310,8 +313,12 @@ def run_exec_contract(contract, env, call, universe=None, extra_helpers=None):
         c, olds = item
         try:
             ok = c.holds(post, olds)
+            EXEC_STATS['clauses'] += 1
         except Exception as e:
-            continue  # clause not executable on these objects (ghost-only): undecided, not a violation
+            # clause not executable on these objects (ghost-only, or its Python form raises): undecided, not a
+            # violation -- but counted and named in the evidence (function_domains[].clauses_not_executable)
+            EXEC_STATS['not_executable'].add(f'post[{lab}]')
+            continue
         if not ok:
             viol.append((f'post[{lab}]', f'result {result!r} violates: {c.src}'))
     return viol
